@@ -807,6 +807,7 @@ class Interp:
     def x_While(self, node, frame):
         spec = self.loop_specs.get((frame.qualname, _loop_ordinal(node, frame)))
         if spec is not None:
+            _check_loop_kind(spec, "while", frame)
             yield from spec.run(self, node, frame)
             return
         while True:
@@ -824,6 +825,7 @@ class Interp:
     def x_For(self, node, frame):
         spec = self.loop_specs.get((frame.qualname, _loop_ordinal(node, frame)))
         if spec is not None:
+            _check_loop_kind(spec, "for", frame)
             yield from spec.run(self, node, frame)
             return
         it = yield from self.eval(node.iter, frame)
@@ -1376,6 +1378,13 @@ def _type_lookup(obj, name):
                 return v.__func__
             return v
     return None
+
+
+def _check_loop_kind(spec, kind, frame):
+    """a loop rule is written for one loop shape; if the function was restructured the rule does not apply: undecided"""
+    want = getattr(spec, "kind", None)
+    if want is not None and want != kind:
+        raise Unsupported(f"loop rule for a {want}-loop met a {kind}-loop in {frame.qualname} (function was restructured)")
 
 
 def _loop_ordinal(node, frame):
